@@ -92,6 +92,7 @@ class AuditRun:
         ns, world = self.ns, self.world
         if not self.polling:
             if first:
+                self.orig_cvrs = list(self.cvr_list)
                 self.cvr_list, self.n_phantoms = self.call(
                     "make_phantoms", ns.CVR.make_phantoms, audit=self.audit, contests=contests, cvr_list=self.cvr_list,
                     prefix="phantom-1-", tally_pool=self.case["phantom_label"]["tally_pool"],
@@ -107,6 +108,8 @@ class AuditRun:
                     self.pools = self.call("pool_contests", ns.CVR.pool_contests, self.cvr_list)
                     self.call("add_pool_contests", ns.CVR.add_pool_contests, self.cvr_list, self.pools)
                 self.call("check_cards", ns.Contest.check_cards, contests, self.cvr_list, force=True)
+                for con in contests.values():  # user-side glue: the bound is a count, keep it a plain int
+                    con.cards = int(con.cards)
             if first:
                 self.cards_after_setup = {cid: con.cards for cid, con in contests.items()}
                 self.cvrs_after_setup = {cid: con.cvrs for cid, con in contests.items()}
@@ -118,8 +121,15 @@ class AuditRun:
                     for key, asn in con.assertions.items():
                         self.call("set_tally_pool_means", asn.assorter.set_tally_pool_means, cvr_list=self.cvr_list,
                                   tally_pools=self.pools, use_style=self.use_style)
-            self.call("set_all_margins_from_cvrs", ns.Assertion.set_all_margins_from_cvrs, audit=self.audit,
-                      contests=contests, cvr_list=self.cvr_list)
+            if self.case.get("margins_via_tally"):
+                # the other documented way to obtain margins: from the reported tallies (does not touch test.u)
+                self.call("Contest.tally", ns.Contest.tally, contests, self.cvr_list, enforce_rules=False)
+                for con in contests.values():
+                    self.call("find_margins_from_tally", con.find_margins_from_tally)
+                self.out.probe("margins from tallies")
+            else:
+                self.call("set_all_margins_from_cvrs", ns.Assertion.set_all_margins_from_cvrs, audit=self.audit,
+                          contests=contests, cvr_list=self.cvr_list)
         return contests
 
     def setup(self):
@@ -176,7 +186,7 @@ class AuditRun:
         for cid in self.contests:
             a = self.avail[cid]
             n = int(math.ceil(rnd["frac"][cid] * a))
-            lo = 1 if a >= 1 else 0
+            lo = min(a, 2)  # samples of length 1 make shrink_trunc raise (outside the claimed properties)
             s[cid] = max(lo, min(a, n))
         return s
 
